@@ -246,7 +246,7 @@ static void do_scanseq(YR_RULES* rules, const uint8_t* b1, size_t l1, const uint
 
 // scanblocks: a scan over `nblocks` blocks of `bsize` bytes whose iterator takes `sleep_ms` to deliver each next block
 // (a slow memory reader); with a timeout the scan must notice the deadline at a block boundary however small the blocks are
-typedef struct { YR_MEMORY_BLOCK blk; uint8_t* data; int n, i, sleep_ms; size_t bsize; } BLKIT;
+typedef struct { YR_MEMORY_BLOCK blk; uint8_t* data; int n, i, sleep_ms; size_t bsize; int nb, pending; } BLKIT;
 static const uint8_t* blk_fetch(YR_MEMORY_BLOCK* b) { return ((BLKIT*) b->context)->data; }
 static YR_MEMORY_BLOCK* blk_get(BLKIT* it)
 {
@@ -258,6 +258,14 @@ static YR_MEMORY_BLOCK* blk_first(YR_MEMORY_BLOCK_ITERATOR* self) { BLKIT* it = 
 static YR_MEMORY_BLOCK* blk_next(YR_MEMORY_BLOCK_ITERATOR* self)
 {
   BLKIT* it = (BLKIT*) self->context;
+  if (it->nb)
+  {
+    // non-blocking source (nb=1): the next block is not there yet — the scan is suspended with ERROR_BLOCK_NOT_READY and the
+    // CALLER waits `sleep_ms` before it resumes the scan; the second request delivers the block
+    if (!it->pending) { it->pending = 1; self->last_error = ERROR_BLOCK_NOT_READY; return NULL; }
+    it->pending = 0; it->i++; self->last_error = ERROR_SUCCESS;
+    return blk_get(it);
+  }
   struct timespec ts = {it->sleep_ms / 1000, (long) (it->sleep_ms % 1000) * 1000000L};
   nanosleep(&ts, NULL);
   it->i++; self->last_error = ERROR_SUCCESS;
@@ -276,8 +284,16 @@ static void do_scanblocks(YR_RULES* rules)
   yr_scanner_set_callback(sc, scan_cb, &o);
   yr_scanner_set_timeout(sc, (int) geti("timeout", 1));
   double t0 = now_s();
-  int rc = yr_scanner_scan_mem_blocks(sc, &iter);
-  printf(" S=%s t=S:%.3f t=blocks:%d", errname(rc), now_s() - t0, it.i);
+  it.nb = (int) geti("nb", 0);
+  int rc = yr_scanner_scan_mem_blocks(sc, &iter), resumes = 0;
+  while (rc == ERROR_BLOCK_NOT_READY && resumes < 10000)
+  {
+    struct timespec ts = {it.sleep_ms / 1000, (long) (it.sleep_ms % 1000) * 1000000L};
+    nanosleep(&ts, NULL);
+    resumes++;
+    rc = yr_scanner_scan_mem_blocks(sc, &iter);     // resume: one scan, one deadline, counted from its first call
+  }
+  printf(" S=%s t=S:%.3f t=blocks:%d t=resumes:%d", errname(rc), now_s() - t0, it.i, resumes);
   yr_scanner_destroy(sc); free(it.data);
 }
 
@@ -285,6 +301,19 @@ static int count_cb(YR_SCAN_CONTEXT* ctx, int msg, void* data, void* ud)
 {
   if (msg == CALLBACK_MSG_RULE_MATCHING) (*(int*) ud)++;
   return CALLBACK_CONTINUE;
+}
+
+// fileseq: include "<k>_<i>" of file k with depth fs_depth[k]
+#define FS_MAX 256
+static int fs_depth[FS_MAX];
+static const char* fs_inc_cb(const char* name, const char* from_file, const char* ns, void* ud)
+{
+  int k = -1, i = -1;
+  if (sscanf(name, "%d_%d", &k, &i) != 2 || k < 0 || k >= FS_MAX || i < 1 || i > fs_depth[k]) return NULL;
+  char* src = (char*) malloc(160);
+  if (i < fs_depth[k]) snprintf(src, 160, "include \"%d_%d\"\nrule r%d_%d { condition: true }\n", k, i + 1, k, i);
+  else snprintf(src, 160, "rule r%d_%d { condition: true }\n", k, i);
+  return src;
 }
 
 static void sanity(void)
@@ -564,6 +593,55 @@ int main()
       free(vals);
       while (g_nest_open > 0) { yr_finalize(); g_nest_open--; }
       if (bits == 64) yr_set_configuration((YR_CONFIG_NAME) key, &keep64); else yr_set_configuration((YR_CONFIG_NAME) key, &keep32);
+    }
+    else if (!strcmp(cmd, "fileseq"))
+    {
+      // several rule FILES given to ONE compiler the way the command-line tool does: yr_compiler_add_file(c, f, NULL, name).
+      // files=<name>:<depth>,...  file k (0-based) holds rule t<k> and includes "<k>_1", which includes "<k>_2" ... down to
+      // "<k>_<depth>" (each with one rule; served by fs_inc_cb).  Per file the outcome; the sequence stops at the first error.
+      char* files = strdup(get("files", "")); char* save = NULL;
+      YR_COMPILER* comp = NULL; CERR e; memset(&e, 0, sizeof e);
+      if (yr_compiler_create(&comp) != ERROR_SUCCESS) printf(" COMPILER_CREATE_FAILED");
+      else
+      {
+        e.c = comp; yr_compiler_set_callback(comp, cerr_cb, &e);
+        yr_compiler_set_include_callback(comp, fs_inc_cb, inc_free, NULL);
+        int k = 0, failed = 0, nrules = 0;
+        for (char* t = strtok_r(files, ",", &save); t && !failed; t = strtok_r(NULL, ",", &save), k++)
+        {
+          char* colon = strrchr(t, ':'); int depth = colon ? atoi(colon + 1) : 0; if (colon) *colon = 0;
+          if (k < FS_MAX) fs_depth[k] = depth;
+          char src[160];
+          if (depth > 0) snprintf(src, sizeof src, "include \"%d_1\"\nrule t%d { condition: true }\n", k, k);
+          else snprintf(src, sizeof src, "rule t%d { condition: true }\n", k);
+          FILE* f = fmemopen(src, strlen(src), "r");
+          int errs = yr_compiler_add_file(comp, f, NULL, t);
+          fclose(f);
+          if (errs == 0) { printf(" OK"); nrules += 1 + depth; }
+          else
+          {
+            failed = 1;
+            int code = e.errors ? e.first_code : comp->last_error;
+            printf(" CERR:%s", errname(code));
+            if (e.errors && e.first_code == ERROR_SYNTAX_ERROR) { canon_msg(e.first_msg); printf(":%.60s", e.first_msg); }
+          }
+        }
+        if (!failed)
+        {
+          YR_RULES* rules = NULL; int hits = 0;
+          if (yr_compiler_get_rules(comp, &rules) != ERROR_SUCCESS) printf(" RGETRULES");
+          else
+          {
+            int rs = yr_rules_scan_mem(rules, (const uint8_t*) "abc", 3, 0, count_cb, &hits, 0);
+            if (rs != ERROR_SUCCESS) printf(" RSCAN:%s", errname(rs)); else printf(" R%d", hits);
+            yr_rules_destroy(rules);
+          }
+        }
+        else printf(" RX");
+        yr_compiler_destroy(comp);
+      }
+      free(files);
+      sanity();
     }
     else if (!strcmp(cmd, "litseq"))
     {
